@@ -273,10 +273,15 @@ def _check_case(case, res, direct_cap=250, count=True):
     try:
         if 'history' in case:
             from ..shadow import Divergence
+            def _tick(a, k):
+                WRAPPER_EVENTS[0] += 1
+            w0 = Watch(agmod, '_process_step_expression', before=_tick)     # the generation in mid-history is only counted
             try:
                 built = Built.from_history(case)
             except Divergence:
                 return None        # the history itself misbehaves: C05's business
+            finally:
+                w0.remove()
             if count:
                 res.count('class:model-reached-through-edit-history')
         else:
@@ -454,9 +459,18 @@ def run(rng, res, tier, shard, nshards):
             case = {'source': 'history', 'spec': case['spec'], 'amodel': {'assets': [], 'links': [], 'attackers': []},
                     'history': gen_history(rng, Lang(case['spec']), rng.randint(5, 40), invalid=0.0, attackers=False,
                                            names=['srv', 'db', 'n', 'x', 'y', None])}
+            # more multi-member fields, assets leaving associations that survive, and a generation in between
+            h = case['history']
+            for _ in range(rng.randint(0, 3)):
+                h.insert(rng.randrange(len(h) + 1), ['add_assoc', rng.randrange(64), [['live', rng.randrange(64)], ['live', rng.randrange(64)]],
+                                                      [['live', rng.randrange(64)], ['live', rng.randrange(64)]][:rng.randint(1, 2)]])
+            cut = rng.randrange(len(h) + 1)
+            for _ in range(rng.randint(1, 3)):
+                h.insert(rng.randrange(cut, len(h) + 1), ['remove_from_assoc', ['live', rng.randrange(64)], ['live', rng.randrange(64)]])
+            case['generate_after'] = cut if rng.random() < 0.7 else None
         first = check_case(case, res)
         nt = res.notes.pop('_nt', False)
-        res.case(digest([case['spec'], case['amodel'], case.get('history')]) if nt else None)
+        res.case(digest([case['spec'], case['amodel'], case.get('history'), case.get('generate_after')]) if nt else None)
         if res.evaluations <= 2 and case['source'] == 'generated':
             res.sample({'language_assets': [a['name'] + ('<' + a['superAsset'] if a['superAsset'] else '') for a in case['spec']['assets']],
                         'a_reaches_expression': _first_expr(case['spec']),
